@@ -109,6 +109,7 @@ def cases(tier, seed, i, n):
             for k in range(len(names)):
                 for mech in MECHS:
                     yield dict(kind='sim', sc=name, k=k, mech=mech)
+        yield gen.mark('every event index of every scenario x 4 abandonment mechanisms (simulated transport)')
         for r, mech in enumerate(MECHS):
             if tier == 'thorough' or r % 2 == 0:
                 yield dict(kind='busy-writer', mech=mech)
